@@ -448,6 +448,13 @@ def _closure_defs(body, op):
     return out
 
 
+def _same_file(F, k1, k2):
+    try:
+        return F.info[k1]["file"] == F.info[k2]["file"]
+    except Exception:
+        return False
+
+
 MAP_LIKE = r"(Option|Result)::(map|and_then|map_or|map_or_else|filter_map|then|unwrap_or_else)$"
 
 
@@ -507,7 +514,7 @@ def deep_origins(F, body, op, depth=5, same_module=True, _stack=(), stop=None, u
         key = nn if F.has(nn) else (c.callee if c.callee and F.has(c.callee) else None)
         if key and stop and re.search(stop, key):
             key = None
-        if key and c.local and key != body.key and key not in _stack and (not same_module or key.rsplit("::", 1)[0] == mod):
+        if key and c.local and key != body.key and key not in _stack and (not same_module or key.rsplit("::", 1)[0] == mod or _same_file(F, key, body.key)):
             C = F.fn_exact(key)
             for s_ in deep_origins(F, C, [0], depth - 1, same_module, _stack + (key,), stop, unwrap):
                 if s_[0] == "param":
